@@ -43,6 +43,7 @@ func init() {
 			"ali/sca/pta/apx: every public Scalar and Point operation and the raw routines with the receiver/output fresh, = first operand, = second operand, both operands one object, all one object, on {0,1,2,l-1,l-2,l+1,2^256-1,random reduced/unreduced} resp. identity, base, small-order and honest points, vs math/big (affine Edwards arithmetic for points); " +
 			"fe/ge/pt2 (fege.go): every routine of fe.go and method of ge.go on raw limb vectors through the hooks, compared limb for limb with the regenerated Lean translation: field operands at 1x/2x/3x the ref10 limb bounds (all +, all -, alternating, single extreme limb, random), alias patterns fresh / h=f / h=g / f=g / all, residues 0, +-1, p-1, p, p+k, -p in tight and loose shapes, byte strings at every limb boundary; group operands identity, base, all small-order points, honest multiples of B and mixed-order points in the shapes Z=1 / random Z / sign-flipped X, chains through the real routines, table selection, non-canonical and non-square encodings, scalars {0,1,8,l-1,l,l+1,2^252,2^253-1,2^255-1,random}; oracle math/big (value, limb bound, affine Edwards law, X*Y=Z*T, canonical bytes); classes *-wild / *-a31>127 = operands outside the ref10 contracts, model = implementation only; " +
 			"hist (hist.go): call histories on shared mutable objects - one private scalar object changed in place between Sign calls (Add one, Pick, SetBytes, UnmarshalBinary, Set, Mul, Neg, Sub, One) from raw values {random, 0, 1, l-1, l, 2^253-1, 2^255-1, top byte 0x88, 2^256-1}, the public point object recomputed in place, message and signature buffers refilled and poked in place, two keys alternating, clones, standard signatures in a re-used buffer, random histories; every emitted signature must verify under crypto/ed25519 for (value at call time)*B, every Verify verdict must equal crypto/ed25519's on the values at call time, no call may change a caller's object; " +
+			"vfy (torsion.go): key-holder signatures with each of the 8 torsion points added to the commitment, to the key, to both, torsion points as keys: the two verifiers must agree; drt/drp: every Scalar and Point operation on a receiver that already holds a large value (SetBytes for every input length 0..66, 100, 129) vs math/big; " +
 			"mut: every (thorough) / a sample (quick) of the single-bit mutations of signature, message, key, plus S+l, truncation, extension: both verifiers must reject; " +
 			"non-trivial = every case whose operands are not all zero; distinct = distinct case line",
 		Gen:  gen,
@@ -531,7 +532,7 @@ func exec(line string) (res h.Result) {
 			execHist(w, &res)
 			return
 		}
-		if !execAlias(w, &res) && !execFeGe(w, &res) {
+		if !execAlias(w, &res) && !execTorsion(w, &res) && !execFeGe(w, &res) {
 			panic("bad case line")
 		}
 	}
@@ -839,4 +840,5 @@ func gen(tier string, rng *h.Rng, emit func(string)) {
 	genAlias(rng, thorough, emit)
 	genFeGe(rng, thorough, emit)
 	genHist(h.NewRng(rng.U64()), thorough, emit) // own stream: the cases above stay what they were
+	genTorsion(h.NewRng(rng.U64()), thorough, emit)
 }
